@@ -30,7 +30,7 @@ func checkC03(c *Ctx) {
 		// varint helper really is a signed varint writer
 		fx := &fmtExtractor{l: l}
 		hs, _ := fx.sequences(helper)
-		c.decide("FORMAT-ics23-ops", "convertVarIntToBytes is PutVarint", l.pos(helper.Pos()), len(hs) == 1 && hs[0] == "V(param:orig)", "signed varint of its argument", "the varint helper no longer encodes its argument as a signed varint: "+strings.Join(hs, " || "))
+		c.decide("FORMAT-ics23-ops", "convertVarIntToBytes is PutVarint", l.pos(helper.Pos()), len(hs) == 1 && hs[0] == "V(arg0)", "signed varint of its argument", "the varint helper no longer encodes its argument as a signed varint: "+strings.Join(hs, " || "))
 
 		ics := findNamedInDeps(l, "github.com/cosmos/ics23/go", "LeafOp")
 		icsInner := findNamedInDeps(l, "github.com/cosmos/ics23/go", "InnerOp")
@@ -43,8 +43,8 @@ func checkC03(c *Ctx) {
 			} else {
 				m := lits[0]
 				got := seqsToStrings(buildSeqs(l, m["Prefix"], helper, 0))
-				c.decide("FORMAT-ics23-ops", "LeafOp.Prefix", l.pos(leafOp.Pos()), len(got) == 1 && got[0] == "V(0) V(1) V(param:version)",
-					"prefix = varint(0) varint(1) varint(version)", "leaf prefix is "+strings.Join(got, " || ")+", pinned: V(0) V(1) V(param:version)")
+				c.decide("FORMAT-ics23-ops", "LeafOp.Prefix", l.pos(leafOp.Pos()), len(got) == 1 && got[0] == "V(0) V(1) V(arg0)",
+					"prefix = varint(0) varint(1) varint(version)", "leaf prefix is "+strings.Join(got, " || ")+", pinned: V(0) V(1) V(arg0)")
 				okOps := constEnum(m["Hash"]) == "HashOp_SHA256" && constEnum(m["PrehashValue"]) == "HashOp_SHA256" && constEnum(m["Length"]) == "LengthOp_VAR_PROTO" && m["PrehashKey"] == nil
 				c.decide("FORMAT-ics23-ops", "LeafOp hash/length ops", l.pos(leafOp.Pos()), okOps, "SHA256, pre-hash value SHA256, no key pre-hash, VAR_PROTO length",
 					"leaf op parameters differ from the IAVL spec: Hash="+constEnum(m["Hash"])+" PrehashValue="+constEnum(m["PrehashValue"])+" Length="+constEnum(m["Length"]))
@@ -56,8 +56,8 @@ func checkC03(c *Ctx) {
 				m := ilits[0]
 				pairs := pairedSeqs(l, m["Prefix"], m["Suffix"], helper)
 				want := map[string]bool{
-					"V(param:path[i].Height) V(param:path[i].Size) V(param:path[i].Version) RAW(0x20) BYTES(param:path[i].Left) RAW(0x20) || ":                                 true,
-					"V(param:path[i].Height) V(param:path[i].Size) V(param:path[i].Version) RAW(0x20) || RAW(0x20) BYTES(param:path[i].Right)": true,
+					"V(arg0[i].Height) V(arg0[i].Size) V(arg0[i].Version) RAW(0x20) BYTES(arg0[i].Left) RAW(0x20) || ":                                 true,
+					"V(arg0[i].Height) V(arg0[i].Size) V(arg0[i].Version) RAW(0x20) || RAW(0x20) BYTES(arg0[i].Right)": true,
 				}
 				ok := len(pairs) == len(want)
 				for _, p := range pairs {
